@@ -566,14 +566,21 @@ class State(MutableMapping):
                 assert (
                     old_v.shape == cur_v.shape
                 ), f"Bad shapes for {k}: {old_v.shape} != {cur_v.shape}"
-                if right_broadcasting:
-                    add_ndim = max(old_v.ndim - to_revert.ndim, 0)
-                    self._values[k] = old_v * unsqueeze_right(
-                        to_revert, ndim=add_ndim
-                    ) + cur_v * unsqueeze_right(to_keep, ndim=add_ndim)
-                else:
-                    self._values[k] = old_v * to_revert + cur_v * to_keep
+                add_ndim = (
+                    max(old_v.ndim - to_revert.ndim, 0) if right_broadcasting else 0
+                )
+                # discarded entries are zeroed BEFORE mixing (inf * 0 = nan would leak otherwise)
+                self._values[k] = self._zeroed_where(
+                    old_v, unsqueeze_right(to_keep, ndim=add_ndim)
+                ) + self._zeroed_where(cur_v, unsqueeze_right(to_revert, ndim=add_ndim))
         self._last_fork = None
+
+    @staticmethod
+    def _zeroed_where(value: VariableValue, where: torch.Tensor) -> VariableValue:
+        """Out-of-place fill of `value` with 0 on entries selected by boolean tensor `where` (weights untouched)."""
+        if isinstance(value, WeightedTensor):
+            return value.map(torch.masked_fill, where, 0)
+        return value.masked_fill(where, 0)
 
     def to_device(self, device: torch.device) -> None:
         """
